@@ -29,6 +29,7 @@ import traceback
 from . import env
 
 MAX_VIOL_PER_SHARD = 40
+CASE_CPU_SECONDS = 40     # per-case CPU-time backstop (process virtual time, independent of machine load)
 MAX_VIOL_PRINT = 12
 
 
@@ -99,8 +100,16 @@ def exc_origin(tb):
 def judge_guarded(check, case):
     """run judge; an exception inside YaLafi code is a violation (no result was
     produced for this input), one inside the harness is a harness error"""
+    from . import probe
     try:
-        return check.judge(case)
+        with probe.CpuGuard(CASE_CPU_SECONDS):
+            return check.judge(case)
+    except probe.CpuBudgetExceeded as e:
+        origin, where = exc_origin(e.__traceback__)
+        tbs = ''.join(traceback.format_exception(type(e), e, e.__traceback__))[-3000:]
+        return dict(ok=False, nt=True, key='cpu-budget-exceeded@%s' % where,
+                    detail={'traceback': tbs, 'cpu_seconds': CASE_CPU_SECONDS},
+                    cnt={'cpu_budget_exceeded': 1}, obs=None)
     except (Exception, SystemExit, RecursionError) as e:
         origin, where = exc_origin(e.__traceback__)
         tbs = ''.join(traceback.format_exception(type(e), e, e.__traceback__))[-3000:]
